@@ -352,9 +352,17 @@ func (p *Proj) descriptor(t *Tgt) string {
 	if t.Helper {
 		h = fmt.Sprintf("K%s,V%s", p.lit("helperk", p.HelperK), p.lit("helperv", p.HelperV))
 	}
+	// the default and the free variable are part of the code only in the form that spells them (a glob target with a
+	// free value is rendered plain or with a default; a closure has no default parameter)
+	d, f := "-", "-"
+	switch p.form(t) {
+	case "default":
+		d = p.lit("dflt|"+t.Label(), t.Dflt)
+	case "closure":
+		f = p.lit("free|"+t.Label(), t.Free)
+	}
 	return fmt.Sprintf("%s|%s|v%d|c%s|g:%s|h:%s|d%s|f%s|r:%s|w:%s", t.Label(), p.form(t), t.CodeVer, p.lit("const|"+t.Label(), t.Const), g, h,
-		p.lit("dflt|"+t.Label(), t.Dflt), p.lit("free|"+t.Label(), t.Free),
-		strings.Join(p.codeReads(t), ","), strings.Join(t.Gens, ","))
+		d, f, strings.Join(p.codeReads(t), ","), strings.Join(t.Gens, ","))
 }
 
 func (p *Proj) renderBuild(pkg string) string {
